@@ -52,13 +52,18 @@ theorem children_good {h : Heap} {reg : List (String × Addr)} (hc : RegClosed h
   rcases ga with ⟨t, ht, _, htc⟩ | hf | hg
   · simp only [children, readType_read ht, List.mem_append, List.mem_map] at hcm
     simp only [typeClosed, typeShape, ht, Bool.and_eq_true, List.all_eq_true] at htc
-    rcases hcm with (⟨r, hr, rfl⟩ | ⟨r, hr, rfl⟩) | hcf
-    · exact Or.inl (refOK_good hc (htc.1.2 r hr))
-    · exact Or.inl (refOK_good hc (htc.1.1 r hr))
+    rcases hcm with ⟨r, hr, rfl⟩ | hcf
+    · exact Or.inl (refOK_good hc (htc.1 r hr))
     · have h3 := htc.2
-      split at h3
-      · exact Or.inr (Or.inr (by simpa [argClosed] using (List.all_eq_true.mp h3) c hcf))
-      · exact Or.inr (Or.inl (by simpa [fieldClosed] using (List.all_eq_true.mp h3) c hcf))
+      simp only [typeKids] at hcf
+      simp only [typeMembersOK] at h3
+      cases hkk : t.kind <;> simp only [hkk, List.all_eq_true] at h3 hcf
+      · exact Or.inr (Or.inl (by simpa [fieldClosed] using h3 c hcf))
+      · exact Or.inr (Or.inl (by simpa [fieldClosed] using h3 c hcf))
+      · simp at hcf
+      · simp at hcf
+      · exact Or.inr (Or.inr (by simpa [argClosed] using h3 c hcf))
+      · simp at hcf
   · simp only [fieldClosed, fieldShape] at hf
     split at hf
     · rename_i f hrf
